@@ -418,6 +418,7 @@ EXTRA_CHECKS["C10"] = _c10
 EXTRA_CHECKS["C01"] = _with_order(EXTRA_CHECKS.get("C01"))
 EXTRA_CHECKS["C06"] = _with_order(EXTRA_CHECKS.get("C06"))
 EXTRA_CHECKS["C04"] = _with_order(EXTRA_CHECKS.get("C04"))
+EXTRA_CHECKS["C07"] = _with_order(EXTRA_CHECKS.get("C07"))   # "people placed in a junction by the initial conditions are pushed downstream ... with the total preserved": the start-up order
 
 
 # ---- C20 "producing plots or exports never modifies the result": every function of the plotting, results and cascade modules is
